@@ -52,6 +52,7 @@ type SpecFn struct {
 	Result  string // Go type expression or SMT sort name prefixed with '$'
 	Def     string // body expression (empty: uninterpreted)
 	Reads   []string
+	NoHeap  bool // recursive spec function that does not read the heap
 	File    string
 	Line    int
 }
@@ -170,6 +171,9 @@ func (cs *ContractSet) ParseFile(path, pkgPath string, ext bool) error {
 			curSpec.Def = strings.TrimSpace(line[4:])
 		case strings.HasPrefix(line, "reads ") && curSpec != nil:
 			curSpec.Reads = strings.Fields(line[6:])
+			if line == "reads nothing" {
+				curSpec.NoHeap = true
+			}
 		case cur == nil:
 			return fmt.Errorf("%s:%d: clause outside func: %s", path, ln, line)
 		case strings.HasPrefix(line, "prop "):
